@@ -112,11 +112,14 @@ Definition requireMem (amt : Z) (c : ctx) : r1 :=
   if atLimit memUsed (mem (hard c)) && live c then RTerm (kill c) (TMem (mem (hard c))) else
   ROk (set_mem c memUsed).
 
+(* ReleaseMem: only accounted when a hard memory limit is set; the counter
+   saturates at zero (it used to panic "Too much mem released": repaired by a
+   fix: commit, see known_findings.json C06-release-underflow-crash) *)
 Definition releaseMem (amt : Z) (c : ctx) : r1 :=
   if 0 <? mem (hard c) then
     if amt <=? mem (used c)
     then ROk (set_mem c (mem (used c) - amt))
-    else RPanic c
+    else ROk (set_mem c 0)
   else ROk c.
 
 Definition setStopLevel (l : N) (c : ctx) : r1 :=
